@@ -123,7 +123,7 @@ pub struct MergeCase {
 
 impl MergeCase {
     pub fn draw(p: &mut Prng, faulty: bool) -> MergeCase {
-        let mut base = PsetSpec::draw(p);
+        let mut base = PsetSpec::draw_with_corpus(p, 8);
         base.n_in = base.n_in.max(1);
         let k = p.urange(2, 5);
         let mut parties = Vec::new();
@@ -672,6 +672,10 @@ pub fn execute(case: &MergeCase, ctx: &mut Ctx) {
                 }
                 None => ctx.violate("C14.ok", "panic", "merge of PSETs of different shape panicked".to_string()),
             }
+        }
+        if ancestor.inputs().is_empty() {
+            // (a repository vector without inputs)
+            return;
         }
         let mut other = ancestor.clone();
         other.inputs_mut()[0].previous_output_index = other.inputs()[0].previous_output_index.wrapping_add(1) & 0x3fff_ffff;
